@@ -80,8 +80,8 @@ ASSUMPTIONS = [
     "a missing package that is required (and allow_all_imports set) must be passed to the installer "
     "(docs: 'Pyscript can install required Python packages if they are missing')",
     "what 'highest' means for a '==' pin that is not a PEP 440 version (pkg==abc, pkg==) is open: for such a package "
-    "the selected version, installer calls and record are don't-care; order independence and 'the run does not "
-    "raise' are still required",
+    "the selected version, installer calls and record are don't-care; order independence is still required; a run that raises "
+    "because of such a pin is don't-care",
     "malformed lines (==1.0, pkg=1.0, 'pkg 1.0', pkg==1==2, -r file) are don't-care for themselves (ignored or "
     "handed literally to the installer) but must not change the result for well-formed lines",
     "comments start with '#' at the beginning of a line or after white space (pip's rule); '#' glued to a "
@@ -95,8 +95,8 @@ ASSUMPTIONS = [
     "root is permuted at the glob seam)",
 ]
 TIERS = {
-    "quick": {"runs": 16000, "chunk": 500, "max_lines": 4, "sweep_all": 24, "sweep_sample": 8},
-    "thorough": {"runs": 200000, "chunk": 2500, "max_lines": 6, "sweep_all": 48, "sweep_sample": 12,
+    "quick": {"runs": 6000, "chunk": 200, "max_lines": 4, "sweep_all": 24, "sweep_sample": 8},
+    "thorough": {"runs": 160000, "chunk": 2500, "max_lines": 6, "sweep_all": 48, "sweep_sample": 12,
                  "chunk_timeout": 900},
 }
 REACH_PROBES = [
@@ -1001,7 +1001,11 @@ def judge_run(rec: dict, ref: dict, universe: list[str], tainted: set, probe, op
     if open_ever is None:
         open_ever = set()
     open_ever |= ref["open"]
-    if rec["exc"]:
+    if rec["exc"] and bool(open_ever):
+        # a run that raises because of a '==' pin that is not a PEP 440 version: the property does not say what
+        # has to happen with such a line, so this is don't-care (counted, not judged)
+        probe("run_raised_on_nonpep440_pin")
+    elif rec["exc"]:
         has_np = bool(open_ever)  # a non-PEP-440 pin in this or an earlier run of the history
         out.append({"class": "C20.run_failed", "sig": {"where": "install_requirements", "exc": rec["exc_type"],
                                                        "nonpep440_pin": has_np},
